@@ -210,14 +210,20 @@ impl<'a, E: FieldElement> ConstraintEvaluationTable<'a, E> {
             max_degree = core::cmp::max(max_degree, degree);
         }
 
-        // make sure expected and actual degrees are equal
-        assert_eq!(
-            self.expected_transition_degrees, actual_degrees,
+        // make sure actual degrees do not exceed the expected ones; for a specific valid trace a
+        // constraint polynomial may have a smaller degree than the declared one (e.g. when a
+        // column is constant, or when a constraint holds on the exempt rows as well)
+        assert!(
+            self.expected_transition_degrees.len() == actual_degrees.len()
+                && self.expected_transition_degrees.iter().zip(&actual_degrees).all(|(e, a)| a <= e),
             "transition constraint degrees didn't match\nexpected: {:>3?}\nactual:   {:>3?}",
-            self.expected_transition_degrees, actual_degrees
+            self.expected_transition_degrees,
+            actual_degrees
         );
 
-        // make sure evaluation domain size does not exceed the size required by max degree
+        // make sure evaluation domain size does not exceed the size required by the max expected
+        // degree
+        let max_degree = self.expected_transition_degrees.iter().copied().max().unwrap_or(max_degree);
         let expected_domain_size =
             core::cmp::max(max_degree, self.domain.trace_length() + 1).next_power_of_two();
         assert_eq!(
